@@ -48,6 +48,11 @@ def battery(pool, rnd, n):
     return seqs
 
 
+def replay(pid, path):
+    print("C18 violations are cross-process comparisons: the whole (14 s) quick check is re-run")
+    return run(pid, "quick", 0)
+
+
 def run(pid, tier, seed):
     rep = Report(pid, tier, seed)
     rnd = random.Random(7000 + seed)
